@@ -41,12 +41,15 @@ def worker_main(argv):
             obs = {k: rec["out"].get(k) for k in ("k", "dims", "shape", "flat", "cls")}
             full = rec if variant == 0 else None
         elif fam == "c10":
+            # the order of the variables registered for one key is part of the arguments (it is the order of
+            # registration); only the insertion order of the KEYS of the metrics mapping is permuted
+            keys = []
+            for e in case["reg"]:
+                if tuple(e["key"]) not in keys:
+                    keys.append(tuple(e["key"]))
             if variant:
-                rng.shuffle(case["reg"])     # insertion order of the metrics mapping (per-key list order is kept below)
-                case["reg"].sort(key=lambda e: e["var"])
-                keys = sorted({tuple(e["key"]) for e in case["reg"]})
                 rng.shuffle(keys)
-                case["reg"].sort(key=lambda e: keys.index(tuple(e["key"])))
+            case["reg"] = [e for k in keys for e in case["reg"] if tuple(e["key"]) == k]
             rec = c10.execute(case)
             obs = {k: rec["out"].get(k) for k in ("k", "dims", "shape", "flat", "cls")}
             full = None
